@@ -40,6 +40,10 @@ func (p *Program) verifyFunc(key string, mode string) (u *Unit) {
 	if fc == nil && fn != nil && fn.Synthetic == "package initializer" && len(p.Globals[pkgPathOf(fn)]) > 0 {
 		fc = &FuncContract{PkgPath: pkgPathOf(fn), Name: "init", File: "global invariants of " + shortKey(pkgPathOf(fn))}
 	}
+	if fc == nil && mode == "own" && fn != nil {
+		// ownership default: the operation writes nothing that existed before the call
+		fc = &FuncContract{PkgPath: pkgPathOf(fn), Name: fn.Name(), ModGiven: true, File: "default ownership frame (modifies nothing)"}
+	}
 	u.Contract = fc
 	if fn == nil {
 		u.Err = fmt.Sprintf("function %s not found in the current tree (contract cannot bind)", key)
@@ -63,7 +67,7 @@ func (p *Program) verifyFunc(key string, mode string) (u *Unit) {
 		e.lockset = true
 		e.safety = false
 	}
-	if fc != nil && fc.ModGiven && !fc.NoFrame {
+	if fc != nil && e.modGiven(fc) && !fc.NoFrame {
 		e.frameOn = true
 	}
 	defer func() {
